@@ -23,7 +23,10 @@ pub trait BuildSchema {
 	/// Build a [`SchemaMut`] for this type
 	fn schema_mut() -> SchemaMut {
 		let mut builder = SchemaBuilder::default();
-		Self::append_schema(&mut builder);
+		// Going through `find_or_build` registers the root type as well, so that a recursive
+		// reference to it resolves to the root node instead of building the type a second time
+		// (which would define its name twice)
+		builder.find_or_build::<Self>();
 		SchemaMut::from_nodes(builder.nodes)
 	}
 
